@@ -158,12 +158,13 @@ impl Pipeline {
                 ChunkSizeHint::Default => {}
                 ChunkSizeHint::Small => size = size.min(SMALL_CHUNK_SIZE),
                 ChunkSizeHint::Large => size = size.max(LARGE_CHUNK_SIZE),
-                ChunkSizeHint::Exact(s) => return s,
+                ChunkSizeHint::Exact(s) => return s.max(1),
                 ChunkSizeHint::AtMost(s) => size = size.min(s),
             }
         }
 
-        size
+        // A chunk size of 0 (LIMIT 0 hints AtMost(0)) would make sources yield empty chunks forever
+        size.max(1)
     }
 
     /// Push a chunk through the operator chain.
